@@ -46,9 +46,14 @@ CORE = {
     "same_class_consecutive": [(0x30, 0x39, "NUMERIC"), (0x32, 0x35, "NUMERIC"), (0x41, 0x5A, "ALPHA"), (0x41, 0x41, "ALPHA"), (0x61, 0x7A, "ALPHA"), (0x7A, 0x7A, "ALPHA"),
                                (0x100, 0x110, "KANJI SYMBOL"), (0x108, 0x10C, "KANJI SYMBOL"), (0x10D, 0x120, "KANJI SYMBOL"), (0x200, 0x210, "GREEK"), (0x1F0, 0x205, "GREEK"),
                                (0x300, 0x310, "CYRILLIC"), (0x311, 0x320, "CYRILLIC"), (0x300, 0x320, "CYRILLIC"), (0x300, 0x320, "CYRILLIC")],
+    # explicit DEFAULT lines next to uncovered gaps (which also become DEFAULT), before / after / between other ranges, nested, with a
+    # second class, first and last line of the file
+    "explicit_default": [(0x10, 0x1F, "DEFAULT"), (0x20, 0x20, "SPACE"), (0x30, 0x39, "DEFAULT"), (0x41, 0x5A, "ALPHA"), (0x5B, 0x5F, "DEFAULT"),
+                         (0x70, 0x7F, "DEFAULT KANJI"), (0x100, 0x10F, "KANJI"), (0x108, 0x10A, "DEFAULT"), (0x200, 0x20F, "DEFAULT"),
+                         (0x210, 0x21F, "GREEK"), (0x220, 0x22F, "DEFAULT"), (0x300, 0x30F, "DEFAULT"), (0x320, 0x32F, "DEFAULT"), (0x1000, 0x1001, "DEFAULT")],
     "same_begin_same_end": [(0x1000, 0x1010, "KANJI"), (0x1000, 0x1020, "SYMBOL"), (0x1000, 0x1030, "NUMERIC"), (0x1008, 0x1030, "ALPHA"), (0x1018, 0x1030, "GREEK")],
 }
-NAMES = ["KANJI", "SYMBOL", "NUMERIC", "ALPHA", "HIRAGANA", "KATAKANA", "KANJINUMERIC", "GREEK", "CYRILLIC", "USER1", "SPACE"]
+NAMES = ["KANJI", "SYMBOL", "NUMERIC", "ALPHA", "HIRAGANA", "KATAKANA", "KANJINUMERIC", "GREEK", "CYRILLIC", "USER1", "SPACE", "DEFAULT", "DEFAULT"]
 
 
 def random_def(rng):
@@ -178,7 +183,7 @@ EXPLANATION = ("Per definition file the real loader+compile run natively, and th
 MANIFEST = dict(
     design_ref="DESIGN.md §4 C17",
     technique="bounded model checking (Kani/CBMC/cadical) of get_category_types over tables compiled by the real code, for all code points; definition files enumerated",
-    text=("For each definition file of a stated family (the two shipped char.def files, eight hand-built overlap patterns - nested, adjacent, duplicated, "
+    text=("For each definition file of a stated family (the two shipped char.def files, ten hand-built overlap patterns - nested, adjacent, duplicated, explicit DEFAULT lines next to gaps, "
           "reversed, single-point, touching 0 / the surrogate gap / U+10FFFE - and seeded random files) the repository's own from_reader/compile is run "
           "and the solver proves, for EVERY Unicode scalar value, that get_category_types on the produced table equals the union of the classes of all "
           "raw lines covering the code point (DEFAULT if none). A wrong compile shows up as a wrong table, a wrong bisection as a wrong lookup; either way "
